@@ -56,9 +56,13 @@ macro_rules! backend_runner {
                 let pk: PK = key_from::<$V, Public>(&key_bytes(&donor.pk)).expect("public key");
                 Shared { lk, sk: skk, pk, good_local: donor.good_local.clone(), good_public: donor.good_public.clone(), nonce: donor.nonce.clone() }
             }
+            /// the same token with one character of its payload segment changed (third from the end of the segment, so
+            /// that the text stays canonical base64 and the change reaches the tag / signature check)
             fn corrupt(t: &str) -> String {
                 let mut b = t.as_bytes().to_vec();
-                let i = b.len() - 3;
+                let dots: Vec<usize> = b.iter().enumerate().filter(|(_, c)| **c == b'.').map(|(i, _)| i).collect();
+                let end = if dots.len() >= 3 { dots[2] } else { b.len() };
+                let i = end - 3;
                 b[i] = if b[i] == b'A' { b'B' } else { b'A' };
                 String::from_utf8(b).unwrap()
             }
@@ -121,7 +125,36 @@ macro_rules! backend_runner {
                     Err(_) => Err("panic".into()),
                 }
             }
-            let donor = mk(local, sk);
+            // building the key set signs and seals once on THIS thread; after a history of rejected operations on it that
+            // must still work (if it does not, that is the violation, not a harness error)
+            let donor = match std::panic::catch_unwind(|| mk(local, sk)) {
+                Ok(d) => d,
+                Err(_) => return (vec![vec![(98, Err("building a fresh key set and signing with it failed on this thread".into()))]], vec![vec![(98, Ok(String::new()))]]),
+            };
+            // clone / drop storm (ops_per_thread == 0 selects it): every thread clones and drops the shared secret and
+            // public key many times, then uses a clone; a reference count or FFI handle that is not thread-safe shows as
+            // a crash of the process (reported by ./check as the violation) or as a key that stopped working
+            if ops_per_thread == 0 {
+                let shared = Arc::new(donor);
+                let rounds = seed as usize;
+                let handles: Vec<_> = (0..threads)
+                    .map(|t| {
+                        let s = Arc::clone(&shared);
+                        std::thread::spawn(move || {
+                            for _ in 0..rounds {
+                                let a = s.sk.clone();
+                                let b = s.pk.clone();
+                                let c = s.lk.clone();
+                                drop((a, b, c));
+                            }
+                            vec![(6u64, op(&s, 6, t as u64)), (1u64, op(&s, 1, t as u64))]
+                        })
+                    })
+                    .collect();
+                let got: Vec<Vec<(u64, Out)>> = handles.into_iter().map(|h| h.join().unwrap_or_else(|_| vec![(99, Err("thread panicked".into()))])).collect();
+                let oracle = got.iter().map(|g| g.iter().map(|(c, _)| (*c, Ok(if *c == 6 { "clone signed, clone verified".to_string() } else { hex::encode(b"payload") }))).collect()).collect();
+                return (got, oracle);
+            }
             let shared = Arc::new(if first_use { mk_unused(local, sk, &donor) } else { donor });
             // plan: per thread, a seeded list of (op code, index)
             let mut g = SplitMix64::new(seed);
@@ -181,7 +214,7 @@ backend_runner!(run_v4s, V4S, true);
 
 pub fn run(ctx: &Ctx) {
     let mut rep = Report::new("C17", &ctx.tier, ctx.seed);
-    rep.rule = "per backend one key set shared through Arc by 2, 4, 8, 16 threads, each performing a seeded random list of: sign+verify, verify good / corrupted token, dangerous_seal_with_nonce (deterministic), decrypt good / corrupted token, clone+sign+drop, Display / id / expose, wrap_pie round trip, wrong-purpose unseal; every result compared with the sequential oracle (the same operation on a fresh copy); the oracle runs every operation on a fresh copy of the keys AND on a fresh thread (no key state, no thread-local state); each operation also has a verdict the property fixes (good tokens verify, corrupted ones fail); the same plans also run as single-thread histories on one key object (failed operations interleaved with successful ones); many short rounds of 8 threads released together by a barrier make the first use of key objects that were only parsed; distinct = (backend, thread count, operation, outcome)".into();
+    rep.rule = "per backend one key set shared through Arc by 2, 4, 8, 16 threads, each performing a seeded random list of: sign+verify, verify good / corrupted token, dangerous_seal_with_nonce (deterministic), decrypt good / corrupted token, clone+sign+drop, Display / id / expose, wrap_pie round trip, wrong-purpose unseal; every result compared with the sequential oracle (the same operation on a fresh copy); the oracle runs every operation on a fresh copy of the keys AND on a fresh thread (no key state, no thread-local state); each operation also has a verdict the property fixes (good tokens verify, corrupted ones fail); the same plans also run as single-thread histories on one key object (failed operations interleaved with successful ones); many short rounds of 8 threads released together by a barrier make the first use of key objects that were only parsed; clone / drop storms (8 threads x 20000 clones of the shared secret, public and local key) on fresh key sets, the key used afterwards; distinct = (backend, thread count, operation, outcome)".into();
     let bs = lab::backends();
     let mut g = SplitMix64::new(ctx.seed ^ 0xC17);
     let thorough = ctx.thorough();
@@ -197,9 +230,12 @@ pub fn run(ctx: &Ctx) {
         let rounds = if b.name == "v1" { if thorough { 40 } else { 6 } } else if thorough { 1500 } else { 120 };
         let mut phases: Vec<(bool, bool, Vec<usize>, usize)> = vec![(false, false, thread_counts.clone(), per_thread), (true, false, vec![1usize], per_thread)];
         phases.push((false, true, vec![8usize; rounds], 2));
+        // clone / drop storms on fresh key sets (per_thread = 0; the seed slot carries the number of clone/drop rounds)
+        let storms = if thorough { 40 } else { 8 };
+        phases.push((false, false, vec![8usize; storms], 0));
         for (mode, first_use, tcs, per_thread) in phases {
             for &tc in &tcs {
-                let seed = g.next();
+                let seed = if per_thread == 0 { if b.name == "v1" { 300 } else if thorough { 50_000 } else { 20_000 } } else { g.next() };
                 let (got, oracle) = match b.name {
                     "v1" => run_v1(&local, &sk, tc, per_thread, seed, mode, first_use),
                     "v2" => run_v2(&local, &sk, tc, per_thread, seed, mode, first_use),
